@@ -23,7 +23,8 @@ Clauses(e) ==
       res == e.res
       n == Len(d)
       nc == Len(calls)
-      mt == MemberTable(d, kind)
+      \* long documents (the depth family) use the machine-based formulation of the same table
+      mt == IF n > 3000 THEN MemberTableM(d, kind) ELSE MemberTable(d, kind)
       \* ---- C09: an error stops the traversal and is returned unchanged
       c09 == /\ \A i \in 1..nc : calls[i][6] # 0 => i = nc
              /\ (nc > 0 /\ calls[nc][6] # 0) => (res[1] = 0 /\ res[3] = calls[nc][6])
